@@ -162,6 +162,9 @@ def aggregate(prop, tier, seed, plan, results, t0):
         val = agg_all.get(name, stats.get(name, extra.get(name, 0)))
         if not isinstance(val, (int, float)) or val < minimum:
             floor_fail.append(f"{name}={val}<{minimum}")
+    if prop != "C20" and cases and crashed > 0.25 * cases:
+        # the workload dies before the deciding monitors can observe: never report this as "held"
+        floor_fail.append(f"crashed_cases={crashed}>25%of{cases}")
     wall = time.time() - t0
     status = "violated" if unknown else ("inconclusive" if (floor_fail or (inconcl and not cases)) else "held")
     evidence = {
